@@ -3,9 +3,9 @@
     Refinement of the op-level model of dispatch.rs (thread-local `Option<Dispatch>`, DefaultGuard priors,
     SCOPED_COUNT fast path, write-once global) to the abstract specification of Model.v (one scope stack per
     thread + a write-once cell), for BOTH variants of dispatch.rs:
-      - [fx = true]  (after fixes/F1.patch): unconditional                          -> [spec_refinement_fixed]
-      - [fx = false] (/repo as it is): for every history outside [F1_class]         -> [spec_refinement_unfixed]
-        and the class is where it fails (witness = F1's replay)                     -> [F1_refuted]
+      - [fx = true]  (/repo as it is, after fix aa353f7): unconditional             -> [spec_refinement_fixed]
+      - [fx = false] (before the fix): for every history outside [F1_class]         -> [spec_refinement_unfixed]
+        and the class is exactly where it fails (witness = F1's replay)             -> [F1_refuted], [F1_class_is_exact]
     plus: frame (thread isolation), unwinding restores, and set_global_default's three micro-steps under every
     interleaving of any number of concurrent attempts. *)
 From Coq Require Import NArith List Bool Lia Arith.
